@@ -44,7 +44,8 @@ try:
     os.makedirs(ev, exist_ok=True); shutil.copy('/verif/known_findings.json', ev)
     r = subprocess.run(['/verif/bin/verifcheck', '-repo', wt, '-verif', ev, '-p', props], capture_output=True, text=True)
     lines = [l for l in (r.stdout + r.stderr).splitlines() if l.startswith(('VIOLATION rule', 'UNDECIDED rule', 'VIOLATION property'))]
-    res['detected'] = r.returncode != 0
+    res['detected'] = any(l.startswith('VIOLATION property=') for l in lines)
+    if r.returncode not in (0, 1): res['check_error'] = (r.stdout + r.stderr)[-300:]
     res['check_reports'] = [l[:400] for l in lines if not l.startswith('VIOLATION property')]
     rc, out = sh(f'python3 /verif/tools/run_baseline.py {wt}', timeout=3600)
     res['suite_passes_with_change'] = rc == 0
